@@ -294,12 +294,18 @@ func (s *c10Store) exec1(op c10M) (obs c10M) {
 		case int:
 			n = x
 		}
+		fillFail, _ := op["fail"].(bool)
 		err := s.kv.BulkWrite(func(bl kvi.KVBulkWrite) error {
 			for i := 0; i < n; i++ {
 				k := append(append([]byte{}, p...), []byte(fmt.Sprintf("%05d", i))...)
 				if e := bl.Set(k, []byte{120}); e != nil {
 					return e
 				}
+			}
+			if fillFail {
+				// a bulk load whose callback fails after n writes: nothing of it may stay (seed C10-l:
+				// a driver that commits a long load in blocks keeps the earlier blocks)
+				return errC10Fail
 			}
 			return nil
 		})
@@ -645,7 +651,8 @@ func c10Generate(r *Run) {
 			for _, op := range []c10M{{"op": "reset", "driver": d}, {"op": "set", "k": "61", "v": "01"}, {"op": "set", "k": "6163", "v": "02"},
 				{"op": "fill", "p": "6162", "n": n}, {"op": "count", "p": "6162"}, {"op": "count", "p": ""},
 				{"op": "delp", "p": "6162"}, {"op": "count", "p": "6162"}, {"op": "count", "p": ""}, {"op": "dump"},
-				{"op": "fill", "p": "62", "n": n}, {"op": "delp", "p": ""}, {"op": "count", "p": ""}} {
+				{"op": "fill", "p": "62", "n": n}, {"op": "delp", "p": ""}, {"op": "count", "p": ""},
+				{"op": "set", "k": "633030303030", "v": "07"}, {"op": "fill", "p": "63", "n": n, "fail": true}, {"op": "count", "p": ""}, {"op": "dump"}} {
 				o := st.exec(op)
 				r.Emit(op, o)
 				r.Count("volume:" + op["op"].(string))
